@@ -327,7 +327,8 @@ func renderStmts(b *strings.Builder, sc *Scope, stmts []*Stmt, ind int) {
 				// 'except E as n' binds n and deletes it at the end of the handler
 				w("try:\n    raise ValueError(\"%s\")\nexcept ValueError as %s:\n    log(\"%s\", \"handler\", exc_name(%s))", st.Tag, st.N, st.Tag, st.N)
 			case "import":
-				w("import simlog as %s\n%s = \"%s\"", st.N, st.N, st.Tag)
+				// bound by the import statement only (logs as <module>)
+				w("import simlog as %s", st.N)
 			case "defname":
 				w("def %s():\n    return \"%s\"\n%s = %s()", st.N, st.Tag, st.N, st.N)
 			case "classname":
